@@ -339,9 +339,13 @@ func randMask(r *rand.Rand, h int) int64 {
 
 func genC04(g *Gen) {
 	r := g.R
-	if !g.Quick() { // bitmaps far longer than the tree needs: 2^25 .. 2^26 + 5 words (what lies beyond bitmapSize is ignored)
-		for i, nw := range []int64{1 << 26, 1<<26 + 5, 1 << 25, 1<<25 + 1, 1<<26 - 1} {
-			t := []int64{15, 0x2f, 1<<11 - 1, 0x85, 7}[i]
+	{ // bitmaps far longer than the tree needs: 2^15 .. 2^16 + 1 words, thorough 2^25 .. 2^26 + 5 (what lies beyond bitmapSize is ignored)
+		sizes := []int64{1 << 26, 1<<26 + 5, 1 << 25, 1<<25 + 1, 1<<26 - 1, 1 << 15, 1<<15 + 1, 1<<16 - 1, 1 << 16, 1<<16 + 1}
+		if g.Quick() {
+			sizes = sizes[5:]
+		}
+		for i, nw := range sizes {
+			t := []int64{15, 0x2f, 1<<11 - 1, 0x85, 7}[i%5]
 			ones := map[int64]bool{0: true, t - 1: true, t: true, t + 70: true, 1 << 30: true, nw*64 - 1: true}
 			for k := 0; k < 6; k++ {
 				ones[r.Int63n(t)] = true
